@@ -514,6 +514,36 @@ func (s *Server) getWorkspaceResolved(docURI protocol.DocumentURI) *include.Reso
 	return s.GetResolved(docURI)
 }
 
+// withOpenDocuments returns resolved with every included file that is open in the
+// editor replaced by the parse of its current text: positions sent to the client
+// must refer to what the client shows, not to the last saved version on disk.
+func (s *Server) withOpenDocuments(resolved *include.ResolvedJournal) *include.ResolvedJournal {
+	if resolved == nil {
+		return nil
+	}
+	var out *include.ResolvedJournal
+	for path := range resolved.Files {
+		text, ok := s.GetDocument(pathToURI(path))
+		if !ok {
+			continue
+		}
+		if out == nil {
+			clone := *resolved
+			clone.Files = make(map[string]*ast.Journal, len(resolved.Files))
+			for p, j := range resolved.Files {
+				clone.Files[p] = j
+			}
+			out = &clone
+		}
+		journal, _ := parser.Parse(text)
+		out.Files[path] = journal
+	}
+	if out == nil {
+		return resolved
+	}
+	return out
+}
+
 // resolvedPrimaryPath is the file the Primary journal of getWorkspaceResolved(docURI)
 // was read from: the workspace's root journal when the workspace tree is in use,
 // the document itself otherwise.
